@@ -5,10 +5,12 @@ last column) unions the pixel with exactly the already-visited neighbours that e
 'eightconnected'; the sparse variants look at k-1 and the window j-1..j+1 of the row above; R2 all variants label
 exactly 'v > threshold'; R3 disjoint-set protocol (dset_new result assigned back, initialise/compress/free
 pairing, link higher->lower, the count cell survives table growth); R4 every label cell is written; R5 the relabel
-loop is race free.
+loop is race free; R6 the Python callers of the kernels (sparseframe, labelimage) keep label 0 = background when they renumber.
 Not decided: that union-find over these edges yields exactly the components, counts, equality between variants.
 """
-from engine import cfront, cover, crules, definit, omp
+import ast
+
+from engine import cfront, cover, crules, definit, omp, pyfacts
 from engine.cfront import estr, estr_top, ewalk, swalk
 from engine.poly import Poly
 
@@ -29,6 +31,8 @@ def run(R):
         r3(R, tus)
     if R.want("C11.R4"):
         r4(R, tus)
+    if R.want("C11.R6"):
+        r6(R)
     if R.want("C11.R5"):
         R.rule("C11.R5", "OpenMP constructs of connectedpixels.c (relabel loop, clean_mask) satisfy the data-sharing discipline (E2)")
         omp.report(R, "C11.R5", tus, select=lambda f: f.file == CP, floor=4)
@@ -496,3 +500,141 @@ def r4(R, tus):
         if main:
             h = omp.loop_header(main[0])
             R.check(estr(h[1]) == "0" and estr(h[2]) == nnz and h[3] == 1 and not h[5], "C11.R4", SP, main[0].line, fname, "scan loop k in [0, nnz)", "the scan does not visit every pixel")
+
+
+# --------------------------------------------------------------------------------------------------
+LABEL_ARG = {"sparse_connectedpixels": 4, "sparse_connectedpixels_splat": 4, "connectedpixels": 1}
+
+
+def rootsrc(fn, e):
+    """text of the array an expression is a view of: subscripts stripped, single-definition aliases (x = self.labels[s:e]) resolved"""
+    for _ in range(4):
+        while isinstance(e, ast.Subscript):
+            e = e.value
+        if isinstance(e, ast.Name) and fn is not None:
+            r = pyfacts.resolved(fn, e)
+            if isinstance(r, (ast.Subscript, ast.Attribute)) or (isinstance(r, ast.Name) and r.id != e.id):
+                e = r
+                continue
+        break
+    return pyfacts.src(e)
+
+
+FN = [None]
+
+
+def r6(R):
+    """The kernels write label 0 for every pixel that is not above the threshold.  A Python caller that renumbers the labels it got
+    (SparseScan.cplabel makes them unique across a scan) must keep 0 -> 0: every later store into the label buffer in the same
+    function is masked by 'label > 0' (np.where(L > 0, L + k, 0), L[L > 0] += k), a multiplication, or absent."""
+    R.rule("C11.R6", "Python callers of connectedpixels / sparse_connectedpixels(_splat): a later store into the label buffer keeps "
+                     "background 0 (np.where(L > 0, L + k, 0) or a 'L > 0' mask); an unmasked shift gives background pixels a peak label")
+    nsite = 0
+    for rel in ("ImageD11/sparseframe.py", "ImageD11/labelimage.py"):
+        m = pyfacts.module(R, rel)
+        for name, call in pyfacts.kernel_calls(m.tree, names=set(LABEL_ARG)):
+            fn = m.enclosing_function(call)
+            if fn is None or len(call.args) <= LABEL_ARG[name]:
+                R.shape(False, "C11.R6", rel, name, "the label argument of the %s call at line %d" % (name, call.lineno))
+            q = m.qualname(fn)
+            lab = call.args[LABEL_ARG[name]]
+            FN[0] = fn
+            bsrc = rootsrc(fn, lab)
+            nsite += 1
+            stores = []
+            for st in ast.walk(fn):
+                if isinstance(st, (ast.Assign, ast.AugAssign)):
+                    for t in (st.targets if isinstance(st, ast.Assign) else [st.target]):
+                        if not isinstance(t, ast.Subscript) and not isinstance(st, ast.AugAssign):
+                            continue      # rebinding a name is not a store into the buffer
+                        if rootsrc(fn, t) == bsrc and st.lineno > call.lineno:
+                            stores.append((st, t))
+            if not stores:
+                R.inst("C11.R6", "%s:%s %s: labels in %s are passed on as the kernel wrote them" % (rel, q, name, bsrc))
+            for st, t in stores:
+                verdict = zero_preserving(fn, st, t, bsrc)
+                if verdict == "unknown":
+                    R.shape(False, "C11.R6", rel, q, "whether '%s' keeps label 0 (background) at 0" % pyfacts.src(st)[:90])
+                R.check(verdict == "keeps", "C11.R6", rel, st.lineno, q, pyfacts.src(st)[:100],
+                        "the label buffer %s filled by %s is shifted without a 'label > 0' mask: pixels that are not above the threshold "
+                        "(label 0) receive a peak label" % (bsrc, name))
+    R.floor("C11.R6", 3)
+
+
+def positive_test(e, bsrc):
+    """e is 'L > 0' / 'L != 0' / 'L >= 1' with L rooted at the label buffer -> True; its negation -> False; else None"""
+    neg = False
+    while isinstance(e, ast.UnaryOp) and isinstance(e.op, (ast.Not, ast.Invert)):
+        e, neg = e.operand, not neg
+    if not (isinstance(e, ast.Compare) and len(e.ops) == 1):
+        return None
+    l, op, r = e.left, e.ops[0], e.comparators[0]
+    if pyfacts.const_int(l) is not None and pyfacts.const_int(r) is None:
+        mirror = {ast.Gt: ast.Lt, ast.Lt: ast.Gt, ast.GtE: ast.LtE, ast.LtE: ast.GtE, ast.Eq: ast.Eq, ast.NotEq: ast.NotEq}
+        if type(op) not in mirror:
+            return None
+        l, op, r = r, mirror[type(op)](), l
+    if rootsrc(FN[0], l) != bsrc:
+        return None
+    v = pyfacts.const_int(r)
+    if v is None:
+        return None
+    if neg:
+        inv = {ast.Gt: ast.LtE, ast.LtE: ast.Gt, ast.GtE: ast.Lt, ast.Lt: ast.GtE, ast.Eq: ast.NotEq, ast.NotEq: ast.Eq}
+        if type(op) not in inv:
+            return None
+        op = inv[type(op)]()
+    if (isinstance(op, (ast.Gt, ast.NotEq)) and v == 0) or (isinstance(op, ast.GtE) and v == 1):
+        return True
+    if (isinstance(op, (ast.LtE, ast.Eq)) and v == 0) or (isinstance(op, ast.Lt) and v == 1):
+        return False
+    return None
+
+
+def zero_preserving(fn, st, t, bsrc):
+    def is_zero(e):
+        return pyfacts.const_int(e) == 0
+    # masked target  L[...][L > 0] op= k   /   L[mask] with mask = (L > 0)
+    if isinstance(t, ast.Subscript):
+        sl = pyfacts.resolved(fn, t.slice)
+        if positive_test(sl, bsrc) is True:
+            return "keeps"
+    # an assert (L > 0).all() earlier in the same block: nothing is background here
+    par = getattr(st, "_parent", None)
+    body = None
+    for f_ in ("body", "orelse", "finalbody"):
+        if par is not None and st in getattr(par, f_, []):
+            body = getattr(par, f_)
+    for prev in (body[:body.index(st)] if body else []):
+        if isinstance(prev, ast.Assert) and isinstance(prev.test, ast.Call) and isinstance(prev.test.func, ast.Attribute) and prev.test.func.attr == "all" \
+                and positive_test(prev.test.func.value, bsrc) is True:
+            return "keeps"
+    if isinstance(st, ast.AugAssign):
+        if isinstance(st.op, (ast.Mult, ast.FloorDiv, ast.BitAnd, ast.LShift, ast.RShift)):
+            return "keeps"
+        if isinstance(st.op, (ast.Add, ast.Sub, ast.BitOr, ast.BitXor)):
+            return "keeps" if is_zero(st.value) else "shifts"
+        return "unknown"
+    v = pyfacts.resolved(fn, st.value)
+    if isinstance(v, ast.Call) and (pyfacts.dotted(v.func) or "").split(".")[-1] == "where" and len(v.args) == 3:
+        pt = positive_test(v.args[0], bsrc)
+        if pt is True and is_zero(v.args[2]):
+            return "keeps"
+        if pt is False and is_zero(v.args[1]):
+            return "keeps"
+        if pt is not None:
+            return "shifts"
+        return "unknown"
+    if isinstance(v, ast.BinOp) and isinstance(v.op, (ast.Add, ast.Sub)):
+        sides = [v.left, v.right]
+        roots = [rootsrc(fn, x) == bsrc for x in sides]
+        if any(roots):
+            other = sides[1] if roots[0] else sides[0]
+            return "keeps" if is_zero(other) else "shifts"
+    if isinstance(v, ast.BinOp) and isinstance(v.op, ast.Mult):
+        for x in (v.left, v.right):
+            if rootsrc(fn, x) == bsrc:
+                return "keeps"
+    if is_zero(v):
+        return "keeps"
+    return "unknown"
